@@ -247,7 +247,17 @@ void MEDDLY::copy_MT::_compute(int L, unsigned in,
     //
     // Determine level information
     //
-    const int Alevel = L>0 && can_use_relation_nodes
+    // Relation nodes describe an unprimed level and the primed level
+    // below it, so they can only be used when we are called at an
+    // unprimed level.  A call at a primed level (e.g., from a binary
+    // operation whose other operand is empty below an unprimed node)
+    // copies the primed node directly; that result is rooted at a primed
+    // level, so it must not share compute table entries with results
+    // for the same node that are rooted at the unprimed level above.
+    //
+    const bool use_relation_nodes = can_use_relation_nodes && (L>0);
+    const bool use_ct = use_relation_nodes || !can_use_relation_nodes;
+    const int Alevel = use_relation_nodes
         ? MXD_levels::unprimedOfLevel(argF->getNodeLevel(A))
         : argF->getNodeLevel(A);
 
@@ -261,7 +271,7 @@ void MEDDLY::copy_MT::_compute(int L, unsigned in,
     ct_vector key(ct->getKeySize());
     ct_vector res(ct->getResultSize());
     key[0].setN(A);
-    if (ct->findCT(key, res)) {
+    if (use_ct && ct->findCT(key, res)) {
         //
         // compute table 'hit'
         //
@@ -287,7 +297,7 @@ void MEDDLY::copy_MT::_compute(int L, unsigned in,
         //
 
         unpacked_node* Cu = nullptr;
-        if (can_use_relation_nodes) {
+        if (use_relation_nodes) {
             //
             // Use relation nodes for relations, so we can copy
             // any implicit representation to MxDs
@@ -430,14 +440,16 @@ void MEDDLY::copy_MT::_compute(int L, unsigned in,
         //
         // Add to CT
         //
-        if (resF->isMultiTerminal()) {
-            MEDDLY_DCASSERT(cv.isVoid());
-            res[0].setN(cp);
-        } else {
-            res[0].set(cv);
-            res[1].setN(cp);
+        if (use_ct) {
+            if (resF->isMultiTerminal()) {
+                MEDDLY_DCASSERT(cv.isVoid());
+                res[0].setN(cp);
+            } else {
+                res[0].set(cv);
+                res[1].setN(cp);
+            }
+            ct->addCT(key, res);
         }
-        ct->addCT(key, res);
 
 
         //
